@@ -669,7 +669,32 @@ fn kindmap(m: &Model, ctx: &mut Ctx) {
     }
 }
 
+/// "Recursive components are boxed" and no others: the type format_member_or_option declares (constraints_and_type_name
+/// inlined) for a component of every shape, recursive or not.
+fn boxed_iff_recursive(m: &Model, ctx: &mut Ctx) {
+    let named = |n: &str, fields: Vec<(&str, Val)>| Val::Ctor(n.to_string(), vec![], fields.into_iter().map(|(k, v)| (k.to_string(), v)).collect::<BTreeMap<_, _>>());
+    let reference = || Val::Ctor("ElsewhereDeclaredType".into(), vec![named("DeclarationElsewhere", vec![("identifier", Val::Str("Other".into())), ("module", Val::none()), ("parent", Val::none()), ("constraints", Val::List(vec![]))])], BTreeMap::new());
+    let inline = |k: &str| Val::Ctor(k.into(), vec![named("payload", vec![("members", Val::List(vec![])), ("options", Val::List(vec![])), ("extensible", Val::none()), ("constraints", Val::List(vec![]))])], BTreeMap::new());
+    for (label, ty) in [("a type reference", reference()), ("an inline SEQUENCE", inline("Sequence")), ("an inline SET", inline("Set")), ("an inline CHOICE", inline("Choice"))] {
+        for (holder, recursive) in [("SequenceOrSetMember", true), ("SequenceOrSetMember", false), ("ChoiceOption", true), ("ChoiceOption", false)] {
+            ctx.oblige("C02.wrap", &format!("boxed-iff-recursive:{}:{}:{}", holder, label, recursive), true);
+            let member = named(holder, vec![("name", Val::Str("alt".into())), ("ty", ty.clone()), ("is_recursive", Val::Bool(recursive)), ("tag", Val::none()), ("constraints", Val::List(vec![])), ("optionality", Val::ctor("Required"))]);
+            match crate::rules::c19::declared_type(m, member) {
+                Ok(t) => {
+                    let boxed = t.starts_with("Box<");
+                    if boxed != recursive {
+                        ctx.violate("C02.wrap", &format!("box:{}", if recursive { "recursive-not-boxed" } else { "boxed-without-recursion" }), "rasn-compiler/src/generator/rasn/utils.rs", 0,
+                            &format!("a {} whose type is {} and which is {}flagged recursive is declared with the type `{}`: recursive components are boxed (a type of infinite size otherwise), and only those", if holder == "ChoiceOption" { "CHOICE alternative" } else { "SEQUENCE / SET component" }, label, if recursive { "" } else { "not " }, t));
+                    }
+                }
+                Err(e) => ctx.fail_closed("C02.wrap", &format!("[declared type of {} / {}]: {}", holder, label, e)),
+            }
+        }
+    }
+}
+
 fn wrap(m: &Model, ctx: &mut Ctx) {
+    boxed_iff_recursive(m, ctx);
     // Box<> under is_recursive at every type-name site of constraints_and_type_name / format_member_or_option
     for fname in ["constraints_and_type_name", "format_member_or_option"] {
         let Some(f) = anchor_fn(m, ctx, "C02.wrap", Some("Rasn"), fname, None) else { continue };
@@ -689,11 +714,8 @@ fn wrap(m: &Model, ctx: &mut Ctx) {
         }
         let mut c = C { out: vec![] };
         model::deep_walk_block(&f.block, &mut c);
-        let want = if fname == "constraints_and_type_name" { 2 } else { 1 };
-        ctx.oblige("C02.wrap", &format!("box-sites:{}", fname), true);
-        if c.out.len() < want {
-            ctx.violate("C02.wrap", &format!("box-sites:{}", fname), &f.file, f.line, &format!("{} boxes recursive component types at {} sites, {} are needed (hoisted inner types and type references{})", fname, c.out.len(), want, if fname == "format_member_or_option" { "; hoisted override" } else { "" }));
-        }
+        // (how many sites box is not asked: what matters — the declared type is boxed exactly when the component is recursive —
+        // is evaluated below; a site whose result another site overrides may come and go)
         for (cond, then, line) in &c.out {
             ctx.oblige("C02.wrap", &format!("box-guard:{}:{}", fname, line), false);
             let var = then.split("boxed_type(").nth(1).and_then(|s| s.split(')').next()).unwrap_or("").to_string();
